@@ -88,7 +88,9 @@ def case(spec):
     coin = spec["coin"]
     chain, shapes = build(spec)
     work = harness.fresh(os.path.join(spec["work"], "c%d" % spec["n"]))
-    d = os.path.join(work, "d")
+    # the directory NAME is not an input of the decoder: a Bitcoin directory may be called like another coin's default folder
+    d = os.path.join(work, spec.get("dirname", "d"))
+    omit = bool(spec.get("omit_coin"))
     xrng = random.Random("C12xor|%s" % spec["n"])
     xor_key = bytes(xrng.randrange(0, 256) for _ in range(xrng.choice([8, 8, 5, 16]))) if spec["n"] % 3 == 0 else None
     datadir.write_datadir(d, COINS[coin], harness.simple_layout(chain), xor_key=xor_key)
@@ -97,7 +99,7 @@ def case(spec):
     n_aux = sum(1 for _, b in chain if b.auxpow)
     for cbname in spec.get("callbacks", ["csvdump"]):
         dump = harness.fresh(os.path.join(work, "o"))
-        p = harness.run_cb(binary, d, coin, cbname, dump, 1, None, verify=True, timeout=300)
+        p = harness.run_cb(binary, d + spec.get("dir_suffix", ""), coin, cbname, dump, 1, None, verify=True, timeout=300, omit_coin=omit)
         runs += 1
         if p.rc != 0:
             v.append(viol("verify-or-parse-failure", "%s --verify -s 1 failed on %s chain with %d AuxPoW blocks (versions %s): %s" % (
@@ -112,7 +114,7 @@ def case(spec):
         v.extend(viol(sig, "%s [coin=%s versions=%s auxpow blocks=%d]" % (det, coin, spec["versions"], n_aux)) for sig, det in bad)
     # whole chain without --verify as well (block 0 included)
     dump = harness.fresh(os.path.join(work, "o"))
-    p = harness.run_cb(binary, d, coin, "csvdump", dump, timeout=300)
+    p = harness.run_cb(binary, d + spec.get("dir_suffix", ""), coin, "csvdump", dump, timeout=300, omit_coin=omit)
     runs += 1
     v.extend(viol(sig, "%s [coin=%s versions=%s]" % (det, coin, spec["versions"])) for sig, det in oracles.check_csvdump(p, dump, chain, coin))
     shutil.rmtree(work, ignore_errors=True)
@@ -148,6 +150,16 @@ def plan(chk):
             n += 1
             specs.append(dict(case="case", coin=coin, seed=chk.seed, n=n, versions=vsets[i % len(vsets)], branch_lengths=lens_small,
                               foreign_threshold=[0x10101, 0x620102][i % 2], blocks=6))
+    # how the tool is pointed at the data: no -c at all (Bitcoin is the default coin) on directories named like other coins' default
+    # folders, with a trailing slash; and -c given for a directory with a foreign name
+    names = [".dogecoin/blocks", ".namecoin", ".namecoin/blocks", ".litecoin/blocks", ".bitcoin/blocks", "Dogecoin", ".unobtanium/blocks", ".myriadcoin/blocks"]
+    for i, dn in enumerate(names if chk.thorough else names[:4] + [names[4 + chk.seed % 4]]):
+        n += 1
+        specs.append(dict(case="case", coin="bitcoin", seed=chk.seed, n=n, versions=vsets[i % 4] + ["auxflag"], branch_lengths=lens_small,
+                          foreign_threshold=[0x620102, 0x10101][i % 2], blocks=8, dirname=dn, dir_suffix="/" if i % 2 else "", omit_coin=True))
+        n += 1
+        specs.append(dict(case="case", coin=AUX_COINS[i % 2], seed=chk.seed, n=n, versions=["below", "at", "above"], branch_lengths=lens_small, blocks=6,
+                          dirname=[".bitcoin/blocks", ".litecoin/blocks"][i % 2]))
     return specs
 
 
